@@ -559,6 +559,13 @@ theorem pres_nextFault (c : Nat) : Spec R P (nextFault c) := by
   · cases h; exact ⟨hC.setScripts _ _, fun _ h => by cases h⟩
   · cases h; exact ⟨hC.refl _, fun _ h => by cases h⟩
 
+theorem pres_blindFault (c : Nat) : Spec R P (blindFault c) := by
+  refine ⟨fun s r s' h => ?_⟩
+  unfold blindFault at h
+  split at h
+  · cases h; exact ⟨hC.setScripts _ _, fun _ h => by cases h⟩
+  · cases h; exact ⟨hC.refl _, fun _ h => by cases h⟩
+
 theorem pres_forgetEntry (c : Nat) (fp : V) : Spec R P (forgetEntry c fp) := by
   refine ⟨fun s r s' h => ?_⟩
   simp only [forgetEntry, modifySt] at h
@@ -602,6 +609,7 @@ theorem pres_backendGet (env : Env) (x : Expr) (c : Nat) (o : V) : Spec R P (bac
   have h2 := pres_lookupStore (R := R) (P := P) hC hP c
   have h3 := pres_nextFault (R := R) (P := P) hC hP c
   have h4 := pres_forgetEntry (R := R) (P := P) hC hP c
+  have h6 := pres_blindFault (R := R) (P := P) hC hP c
   pres_auto hC.toStRel hP hrun with (first | exact h2 _ _ | exact h4 _ | exact pres_raise hC.toStRel hP (hP.other _))
 
 theorem pres_backendExists (env : Env) (x : Expr) (c : Nat) (o : V) : Spec R P (backendExists env run x c o) := by
@@ -610,6 +618,7 @@ theorem pres_backendExists (env : Env) (x : Expr) (c : Nat) (o : V) : Spec R P (
   have h2 := pres_lookupStore (R := R) (P := P) hC hP c
   have h3 := pres_nextFault (R := R) (P := P) hC hP c
   have h4 := pres_forgetEntry (R := R) (P := P) hC hP c
+  have h6 := pres_blindFault (R := R) (P := P) hC hP c
   pres_auto hC.toStRel hP hrun with (first | exact h2 _ _ | exact h4 _)
 
 theorem pres_backendSet (env : Env) (x : Expr) (c : Nat) (o v : V) : Spec R P (backendSet env run x c o v) := by
